@@ -7,12 +7,9 @@ CONSTANTS
   TwoArr = FALSE
   Record = FALSE
   MaxSteps = 0
-  WpMulti = 2
+  WpMulti = 0
   RunSet = 0
-  DoEmit = FALSE
-  DoWp = TRUE
-  DoRun = TRUE
-INVARIANT WpExact
-INVARIANT Consistent
-INVARIANT Classified
+  DoEmit = TRUE
+  DoWp = FALSE
+  DoRun = FALSE
 CHECK_DEADLOCK FALSE
